@@ -26,7 +26,7 @@ META = {
     "bounds": {"quick": "depth 2 from every root (core menu at depth 2)", "thorough": "depth 3 under a reported state cap"},
     "assumptions": [
         "value of an array = harness embedding with the pending signs applied by the harness (never by phase_sync)",
-        "decomposition factors are gauge dependent: compared through products / spectra with rel. tolerance 1e-9",
+        "decomposition factors are gauge dependent: compared through products / spectra with rel. tolerance 1e-9; all other comparisons use rel. tolerance 1e-12 (exact for the integer tags; states behind a decomposition hold floats)",
     ],
 }
 
@@ -154,7 +154,9 @@ def compare_op(op, L, S, fails, st, where):
             if not ok:
                 fails.append((f"C09/{family(op)}/differs", f"{where}: {op.name}: {why} differs between the lazy and the synchronised copy"))
         else:
-            tol = 1e-12 if ("reduction" in op.tags and "norm" in op.name) else 0.0
+            # integer tags compare exactly anyway (differences are >= 1); states derived from decompositions hold floats,
+            # where summation order may differ in the last bit between the two branches
+            tol = 1e-12
             if not obs_equal(arr_obs(rl), arr_obs(rs), tol):
                 fails.append((f"C09/{family(op)}/differs", f"{where}: {op.name}: result differs between the lazy and the synchronised copy"))
     except Exception as e:
@@ -194,7 +196,7 @@ def mixed_failures(L, S, fails, st):
                 st.transitions += 1
             if ref is None:
                 ref = r
-            elif not (obs_equal(ref, r) if ref[0] != "exc" and r[0] != "exc" else ref == r):
+            elif not (obs_equal(ref, r, 1e-12) if ref[0] != "exc" and r[0] != "exc" else ref == r):
                 fails.append((f"C09/mixed:{name.split('(')[0]}/differs", f"{name}: operands ({na},{nb}) give a different result than (L,L)"))
 
 
@@ -207,7 +209,7 @@ def sync_laws(L, S, fails, st):
             st.transitions += 1
         if y.phases:
             fails.append(("C09/phase_sync/table-not-cleared", f"{y.phases}"))
-        if not obs_equal(arr_obs(y), arr_obs(T)) or set(y.blocks) != set(T.blocks) or not all(exact_equal(y.blocks[k], T.blocks[k]) for k in T.blocks):
+        if not obs_equal(arr_obs(y), arr_obs(T), 1e-12) or set(y.blocks) != set(T.blocks) or not all(exact_equal(y.blocks[k], T.blocks[k]) for k in T.blocks):
             fails.append(("C09/phase_sync/value-changed", "phase_sync changed the value or did not apply each sign exactly once"))
         z = y.phase_sync()
         if not all(exact_equal(z.blocks[k], y.blocks[k]) for k in y.blocks) or z.phases:
@@ -328,4 +330,4 @@ def run_group(ctx, group):
 
 
 def replay(ctx, case):
-    return trace_failures(case["root"], depth_max=2)[0]
+    return trace_failures(case["root"], depth_max=3, cap=600)[0]
